@@ -105,6 +105,10 @@ def r14_3(ctx):
         # only the initial lookup (not the re-read after put)
         puts = tc(q, wt, {'put'}, ins)
         W = [e for e in W if not puts or q.must_precede(puts, [e])]
+        # ... nor any other lookup of the miss path: one that can only run after the populate callback
+        pops = q.edges(lambda x: x['k'] == 'usercb' and callback_kind(ctx, q, x) == 'populate')
+        if pops:
+            W = [e for e in W if q.must_precede(pops, [e])]
         whits = []
         for e in W:
             pay = values.SYM('vf', q.E[e][2]['res'], 'v0', 'f0')
